@@ -90,6 +90,14 @@ func main() {
 			var d chainDesc
 			json.Unmarshal(in.Raw, &d)
 			run.Add(chainCase(d))
+		case "splatguard":
+			var d guardDesc
+			json.Unmarshal(in.Raw, &d)
+			run.Add(guardCase(d))
+		case "parallel":
+			var d parallelDesc
+			json.Unmarshal(in.Raw, &d)
+			run.Add(parallelCase(d))
 		case "bigspz":
 			var d bigSpzDesc
 			json.Unmarshal(in.Raw, &d)
@@ -116,6 +124,8 @@ func main() {
 	spzFixed(run, r, thorough)
 	plyFixed(run)
 	chainFixed(run)
+	guardFixed(run)
+	run.Add(parallelCase(parallelDesc{Seed: run.Seed + 77, Workers: 6}))
 	bigFixed(run, thorough)
 
 	// ---- generated ----
